@@ -59,6 +59,28 @@ pub fn slp_write(game: &Game) -> Result<Vec<u8>, Fail> {
 	}))
 }
 
+/// Write through an instrumented sink; returns (result, sink).
+pub fn slp_write_sink(game: &Game, mut sink: crate::iofault::Sink) -> (Result<(), Fail>, crate::iofault::Sink) {
+	let r = flat(guard(|| slippi::write(&mut sink, game)));
+	(r, sink)
+}
+
+pub fn slpp_write_sink(game: Game, comp: Comp, mut sink: crate::iofault::Sink) -> (Result<(), Fail>, crate::iofault::Sink) {
+	let opts = slpp::ser::Opts {
+		compression: match comp {
+			Comp::None => None,
+			Comp::Lz4 => Some(arrow2::io::ipc::write::Compression::LZ4),
+			Comp::Zstd => Some(arrow2::io::ipc::write::Compression::ZSTD),
+		},
+	};
+	let r = match guard(|| slpp::write(&mut sink, game, Some(&opts)).map_err(|e| e.to_string())) {
+		Ok(Ok(())) => Ok(()),
+		Ok(Err(e)) => Err(Fail::Err(e)),
+		Err(p) => Err(Fail::Panic(p)),
+	};
+	(r, sink)
+}
+
 #[derive(Clone, Copy, Debug, PartialEq, Eq)]
 pub enum Comp {
 	None,
@@ -308,14 +330,19 @@ pub enum Step {
 /// event per call until the declared raw length is consumed or Game End is
 /// seen, then optional metadata and the closing brace), calling `on_step`
 /// after every call. `extra_after_end` = also consume a doubled Game End.
-pub fn incremental<R: std::io::Read>(r: &mut R, mut on_step: impl FnMut(&ParseState, Step, u32)) -> Result<ParseState, Fail> {
+pub fn incremental<R: std::io::Read>(r: &mut R, on_step: impl FnMut(&ParseState, Step, u32)) -> Result<ParseState, Fail> {
+	incremental_opts(r, None, on_step)
+}
+
+/// As `incremental`, passing `opts` to every call of the incremental API.
+pub fn incremental_opts<R: std::io::Read>(r: &mut R, opts: Option<&peppi::io::slippi::de::Opts>, mut on_step: impl FnMut(&ParseState, Step, u32)) -> Result<ParseState, Fail> {
 	use peppi::io::slippi::de;
 
-	let raw_len = flat(guard(|| de::parse_header(&mut *r, None)))?;
-	let mut state = flat(guard(|| de::parse_start(&mut *r, None)))?;
+	let raw_len = flat(guard(|| de::parse_header(&mut *r, opts)))?;
+	let mut state = flat(guard(|| de::parse_start(&mut *r, opts)))?;
 	on_step(&state, Step::Start, raw_len);
 	while raw_len == 0 || state.bytes_read() < raw_len as usize {
-		let code = flat(guard(|| de::parse_event(&mut *r, &mut state, None)))?;
+		let code = flat(guard(|| de::parse_event(&mut *r, &mut state, opts)))?;
 		on_step(&state, Step::Event(code), raw_len);
 		if code == 0x39 {
 			break;
@@ -330,7 +357,7 @@ pub fn incremental<R: std::io::Read>(r: &mut R, mut on_step: impl FnMut(&ParseSt
 	r.read_exact(&mut b).map_err(|e| Fail::Err(e.to_string()))?;
 	match b[0] {
 		0x55 => {
-			flat(guard(|| de::parse_metadata(&mut *r, &mut state, None)))?;
+			flat(guard(|| de::parse_metadata(&mut *r, &mut state, opts)))?;
 			on_step(&state, Step::Metadata, raw_len);
 			r.read_exact(&mut b).map_err(|e| Fail::Err(e.to_string()))?;
 			if b[0] != 0x7d {
